@@ -13,6 +13,11 @@ CONSTANTS
   AllowAbort = FALSE
   ForeignRelease = FALSE
   OrderedArrival = FALSE
+  AllowPause = FALSE
+  AllowIoError = FALSE
+  AllowResume = FALSE
+  ForgetUncreated = FALSE
+  MaxInterrupts = 3
 INVARIANT Inside
 INVARIANT RegularName
 INVARIANT FreshWhenChosen
